@@ -3,3 +3,6 @@ import NormModel.Properties.C19
 #print axioms Norm.C19.advPos_ends_nl
 #print axioms Norm.C19.visualPos_prefix
 #print axioms Norm.C19.token_shift
+#print axioms Norm.C19.lexItems_fuel_mono
+#print axioms Norm.C19.lex_shift
+#print axioms Norm.C19.lex_after_prefix
